@@ -174,7 +174,7 @@ func (p *preinst) emit(ctx []*Term, t *Term) {
 		var c2 []*Term
 		for _, c := range ctx {
 			if hasQuantStrict(c) {
-				if g, ok := p.known[c.String()]; ok {
+				if g, ok := p.known[c.Canon()]; ok {
 					if g != True {
 						c2 = append(c2, g)
 					}
@@ -185,7 +185,7 @@ func (p *preinst) emit(ctx []*Term, t *Term) {
 				var keep []*Term
 				for _, cc := range c.Args {
 					if hasQuantStrict(cc) {
-						if g, ok := p.known[cc.String()]; ok {
+						if g, ok := p.known[cc.Canon()]; ok {
 							if g != True {
 								keep = append(keep, g)
 							}
@@ -385,12 +385,24 @@ func preInstantiate(D *Decls, asserts []*Term, focus []*Term, withPairs bool, hi
 			addKnown(t.Args[1], And(guard, t.Args[0]), depth+1)
 			return
 		}
-		if _, dup := p.known[t.String()]; !dup {
-			p.known[t.String()] = guard
+		// P ==> Q with P a quantified fact that is itself known: Q is known too
+		if !t.IsSym && t.Op == "=>" && hasQuantStrict(t.Args[0]) {
+			if g2, ok := p.known[t.Args[0].Canon()]; ok {
+				addKnown(t.Args[1], And(guard, g2), depth+1)
+			}
+		}
+		if _, dup := p.known[t.Canon()]; !dup {
+			p.known[t.Canon()] = guard
 		}
 	}
-	for _, a := range all {
-		addKnown(a, True, 0)
+	for round := 0; round < 3; round++ {
+		before := len(p.known)
+		for _, a := range all {
+			addKnown(a, True, 0)
+		}
+		if len(p.known) == before {
+			break
+		}
 	}
 	// pointer-like constants the goal itself mentions (pair candidates)
 	fs := map[string]bool{}
